@@ -287,6 +287,20 @@ def run(ctx):
         sink = None
         if plain and plain[0].name == "to_writer":
             w = plain[0].args[0]
+            # `to_writer(&mut file, ..)` with `let mut file = BufWriter::new(File::create(path)?)`: a borrowed local that is
+            # initialised once stands for its initialiser
+            from analysis.origin import strip as _strip
+            hops = 0
+            while hops < 4:
+                hops += 1
+                w0 = _strip(w)
+                if w0[0] != "local":
+                    break
+                defs = q.ev.def_sites().get(w0[1], [])
+                if len(defs) != 1:
+                    break
+                d = defs[0]
+                w = q.ev.call_expr(d[1]) if d[0] == "c" else q.ev.rvalue(q.body.blocks[d[1]].stmts[d[2]].rv, (d[1], d[2]))
             if has_call(w, "create", "fs::File") and path_param(w):
                 sink = "File::create(path) (truncates)"
         elif plain:
